@@ -459,7 +459,8 @@ def norm_xy(
     _mean = pts.mean(axis=0)
     XX = np.subtract(pts, _mean, out=out)
 
-    sx = (((XX**2).sum(axis=1) * 0.5) ** -0.5).mean()
+    # mean distance from the origin becomes sqrt(2)
+    sx = (((XX**2).sum(axis=1) * 0.5) ** 0.5).mean() ** -1
     XX *= sx
 
     tx, ty = -_mean * sx
